@@ -5,6 +5,16 @@ import re
 
 m = json.load(open("seeded/MATRIX.json"))
 NOTES = {
+    "C04-F": "round 7; first missed (the encoder contract's cell had no state from an earlier decode): the cell now carries an arbitrary `_flags` word, native search encodes cells decoded from records with every flag bit",
+    "C19-F": "round 7; first missed (no name whose case-folded and lower-cased forms differ): such names in the stand-in and the native search",
+    "C05-F": "round 7; caught by the stand-in; a changed frame expression is now treated like a function that cannot be generated (it crashed the checker), and its native search replays an incompressible 200 KB stream",
+    "C07-F": "round 6; first missed (the validator did not look at data files): data files no record describes are an inventory error; C07 shares C15's structural obligation on the cell-style key; rebased after fix 84fda69",
+    "C09-F": "round 6; first missed: labels shared by the first body column/row and one later one, unequal header counts; these configurations also exposed a genuine defect (fix 0556d8f)",
+    "C12-F": "round 6; first missed (hidden behind the open finding F-C12-2, whose witness pattern matched every edit history): tail deletions holding a whole rectangle are generated and worded apart",
+    "C15-F": "round 6; first missed (needs a second table and three saves): styles/formats of two tables over three saves (own stand-in), structural obligation on add_table (owns every keyed list), which also exposed a genuine defect for format lists (fix 93ff614); rebased",
+    "C16-F": "round 6; first missed (only a sheet with a pivot table before another table): Document.save under contract, sizes set on every table of loaded fixtures incl. test-pivot.numbers",
+    "C20-F": "round 6; first missed (no backslash in the text pool): backslash texts + structural obligation on the csv.reader parameters",
+    "C16-B": "rebased after fixes 46580e5 / 93ff614",
     "C01-E": "round 5; first missed (needs a second save of the same open document): two-save histories in the stand-in + structural obligation (keys of lists emptied on save are not memoised)",
     "C02-E": "round 5; first missed (left the subset; the contract's native search saved plain rows only): the search now calls recalculate_row_info on rows with record-less cells; create-formulas.numbers always in the quick tier",
     "C07-E": "round 5; caught by the stand-in; now also replayed through recalculate_row_info's native search (offsets of rows with merged placeholders)",
